@@ -60,6 +60,8 @@ def ops_for(cfg, tier):
     if cfg[0] == "Z":
         return OPS_Z + (["w_bad_first"] if cfg[3] else [])
     ops = list(OPS_S)
+    if cfg[3]:
+        ops.append("w_bad_validator_only")  # only validation rejects it (bool for long): the raw encoder would take it
     if tier == "thorough":
         ops += ["copy_bzip2", "copy_xz"]
     return ops
@@ -128,6 +130,8 @@ class World:
             self._write({"a": -k, "b": "L" * 40}, False)
         elif op == "w_bad_first":
             self._write({"a": "not-a-long", "b": "x"} if self.kind == "S" else {"n": 5}, True)
+        elif op == "w_bad_validator_only":
+            self._write({"a": True, "b": "s", "c": k}, True)
         elif op == "w_bad_last":
             self._write({"a": k, "b": "ok", "c": "not-an-int"}, True)
         elif op == "w_zero":
